@@ -753,8 +753,12 @@ func (s *Server) streamLTXSnapshot(ctx context.Context, w http.ResponseWriter, d
 	if timeout == 0 {
 		timeout = s.store.Retention
 	}
-	ctx, cancel := context.WithTimeoutCause(ctx, timeout, fmt.Errorf("snapshot timeout exceeded (%s)", timeout))
-	defer cancel()
+	// A zero timeout (no snapshot timeout and retention disabled) means no limit.
+	if timeout > 0 {
+		var cancel context.CancelFunc
+		ctx, cancel = context.WithTimeoutCause(ctx, timeout, fmt.Errorf("snapshot timeout exceeded (%s)", timeout))
+		defer cancel()
+	}
 
 	// Write frame.
 	if err := litefs.WriteStreamFrame(w, &litefs.LTXStreamFrame{Name: db.Name()}); err != nil {
